@@ -285,6 +285,27 @@ class Abort(Exception):
     pass
 
 
+class _EnvRef:
+    """The defining environment of a nested function, by reference (late
+    binding) and hashable, so that terms mentioning the closure can key
+    dictionaries."""
+    __slots__ = ("env",)
+
+    def __init__(self, env):
+        self.env = env
+
+    def __repr__(self):
+        return "<env>"
+
+    # a closure is identified by its definition (every replay of a path
+    # creates a new environment object for the same definition)
+    def __eq__(self, other):
+        return isinstance(other, _EnvRef)
+
+    def __hash__(self):
+        return 0
+
+
 class Path:
     def __init__(self):
         self.valuation = {}      # atom -> value
@@ -1202,8 +1223,8 @@ class Interp:
         if isinstance(f, ast.Name) and f.id in env and \
                 env[f.id][0] == "closure":
             fdef = env[f.id][2]
-            return self.inline_call(fdef, None, args, kws, env[f.id][3],
-                                    node)
+            return self.inline_call(fdef, None, args, kws,
+                                    env[f.id][3].env, node)
         ft = self.eval(f, env)
         fi = self.fstack[-1]
         if ft == ("global", "builtins.bool") and len(args) == 1 and not kws:
@@ -1620,7 +1641,7 @@ class Interp:
                 raise _Raise("builtins.AssertionError", (), st)
             return
         if isinstance(st, (ast.FunctionDef,)):
-            env[st.name] = ("closure", st.name, st, env)
+            env[st.name] = ("closure", st.name, st, _EnvRef(env))
             return
         if isinstance(st, (ast.Import, ast.ImportFrom)):
             for a in st.names:
@@ -1795,6 +1816,12 @@ class Interp:
             try:
                 if st.handlers and self.try_raises:
                     self._try_body(st, env)
+                elif st.finalbody and self.try_raises:
+                    # try/finally: what the body calls may raise; the
+                    # exception passes through the finally clause (that the
+                    # clean-up also happens on that way out is what the
+                    # construct is for)
+                    self._try_body(st, env, propagate=True)
                 else:
                     self._block(st.body, env)
                 self._block(st.orelse, env)
@@ -1822,15 +1849,55 @@ class Interp:
             raise
         self._block(st.finalbody, env)
 
+    def _catch_labels(self, eff, h):
+        """What a call inside a try body can raise into handler `h`, as atom
+        labels.  When every callee is a repository function whose escape set
+        is known, the label is the set of escaping classes the handler
+        catches (so `except ConfigurationError` and `except SchemaError`
+        around a call that raises SchemaError only are the same observation,
+        and a handler for a class the callee never raises is no observation
+        at all); otherwise the handler's own class names."""
+        names = self._handler_names(h)
+        node = eff[2] if len(eff) > 2 else None
+        if h.type is None or not isinstance(node, ast.Call):
+            return names
+        try:
+            fi = self.fstack[-1]
+            callees = self.P.resolve_call(fi, node)
+            if not callees or any(c.kind != "repo" or getattr(
+                    c, "ambiguous", False) for c in callees):
+                return names
+            ef = _excflow_for(self.P)
+            esc = set()
+            for c in callees:
+                esc |= set(ef.classes_escaping(c.fn))
+            from . import excflow as _E
+            if not esc or any(e in (_E.PSEUDO_OWN, _E.UNKNOWN) for e in esc):
+                return names
+            types = h.type.elts if isinstance(h.type, ast.Tuple) \
+                else [h.type]
+            hq = [self.m.resolve(fi.module, t) for t in types]
+            if any(q is None for q in hq):
+                return names
+            caught = sorted(e for e in esc
+                            if any(ef.is_sub(e, q) for q in hq))
+        except AnalysisError:
+            return names
+        if not caught:
+            return []
+        return ["+".join(c.split(".")[-1] for c in caught)]
+
     def _handler_names(self, h):
         if h.type is None:
             return ["BaseException"]
         types = h.type.elts if isinstance(h.type, ast.Tuple) else [h.type]
         return [src(t).split(".")[-1] for t in types]
 
-    def _try_body(self, st, env):
+    def _try_body(self, st, env, propagate=False):
         """Statements of a try body: every effectful call may raise into one
-        of the handlers (atom 'raises(call, class)')."""
+        of the handlers (atom 'raises(call, class)'); with propagate=True
+        (a try/finally without handlers) it may raise through the finally
+        clause (atom 'raises(call, *)')."""
         for s in st.body:
             before = len(self.path.effects)
             saved = dict(env)
@@ -1841,20 +1908,30 @@ class Interp:
                 pending = ctl
             effs = self.path.effects[before:]
             for j, eff in enumerate(effs):
+                if eff[0] == "call" and propagate:
+                    if self.decide(("raises", eff[1], "*")):
+                        env.clear()
+                        env.update(saved)
+                        del self.path.effects[before + j + 1:]
+                        raise _Raise("propagated", (eff[1],), s)
+                    continue
                 if eff[0] == "call":
                     for h in st.handlers:
-                        for cls in self._handler_names(h):
+                        for cls in self._catch_labels(eff, h):
                             if self.decide(("raises", eff[1], cls)):
                                 # the statement did not complete: undo its
                                 # bindings and the effects after the call
                                 env.clear()
                                 env.update(saved)
                                 del self.path.effects[before + j + 1:]
-                                raise _Raise("caught:" + cls, (eff[1],), s)
+                                r_ = _Raise("caught:" + cls, (eff[1],), s)
+                                r_.handler = h
+                                raise r_
             # a subscript load may raise KeyError/IndexError into a handler
             # that names it
-            if any(isinstance(x, ast.Subscript) and isinstance(x.ctx, ast.Load)
-                   for x in ast.walk(s)):
+            if not propagate and any(
+                    isinstance(x, ast.Subscript) and isinstance(x.ctx, ast.Load)
+                    for x in ast.walk(s)):
                 # (the observation is named by the subscript's terms, not
                 # by the statement's spelling)
                 sub = next(x for x in ast.walk(s)
@@ -1881,6 +1958,8 @@ class Interp:
                 raise pending
 
     def _handler_matches(self, h, r):
+        if getattr(r, "handler", None) is not None:
+            return r.handler is h
         if r.cls.startswith("caught:"):
             return r.cls[7:] in self._handler_names(h)
         if h.type is None:
@@ -1894,6 +1973,16 @@ class Interp:
                 if self.m.is_subclass(r.cls, hq):
                     return True
         return False
+
+
+_EXCFLOW = {}
+
+
+def _excflow_for(program):
+    if id(program) not in _EXCFLOW:
+        from .excflow import ExcFlow
+        _EXCFLOW[id(program)] = ExcFlow(program)
+    return _EXCFLOW[id(program)]
 
 
 _VOCAB = None
